@@ -94,3 +94,43 @@ End Eval.
 Definition digit (v : pval) : Z := match v with VNone => 9 | VInt z => z end.
 Fixpoint fcode (l : list pval) : Z := match l with [] => 0 | v :: r => digit v + 10 * fcode r end.
 Definition fdigits (l : list pval) : pval := VInt (fcode l).
+
+(* ------------------------------------------------------------------ the dict-output path (_dict_output)
+   A function declared with f.output = [o1; ...; on] returns a record of named outputs; previously
+   computed values are supplied per output (caches : one datain per output, None = not supplied).
+   join sees every supplied cache as one more input with default None, so the key set is that of
+   args ++ caches.  A row is recomputed iff some output was not supplied at all or its expiry is None /
+   not in the past; otherwise every output keeps the value supplied for that key (None where absent).
+   The call returns, per output, the key columns plus that output: modelled as rows key -> record. *)
+Definition cache_arg (d : datain) : arg :=
+  match d with Some rows => mkArg (Table rows) (Some VNone) | None => mkArg (Scalar VNone) (Some VNone) end.
+Definition supplied (d : datain) : bool := match d with Some _ => true | None => false end.
+Definition args_with (args : list arg) (caches : list datain) : list arg := args ++ map cache_arg caches.
+Definition keysN (args : list arg) (caches : list datain) (x : expin) : list key :=
+  result_keys (args_with args caches) None x.
+Definition any_tableN (args : list arg) (caches : list datain) (x : expin) : bool :=
+  any_table (args_with args caches) None x.
+Definition runsN (caches : list datain) (x : expin) (k : key) : bool :=
+  if forallb supplied caches then match exp_of x k with EPast => false | _ => true end else true.
+Definition cachesN (caches : list datain) (k : key) : list pval := map (fun d => cache_of d k) caches.
+
+Inductive resultN :=
+| NScalar (outs : list pval)                       (* all inputs scalars: f's record itself *)
+| NEmpty (caches : list datain)                    (* no common key: the supplied caches are handed back *)
+| NTable (rows : list (key * list pval)).          (* one row per key, the record of outputs *)
+
+Section EvalN.
+  Variable f : list pval -> list pval.
+  Definition perdictN (args : list arg) (caches : list datain) (x : expin) : resultN * list (key * list pval) :=
+    if negb (any_tableN args caches x) then (NScalar (f (row_args args [])), [([], row_args args [])])
+    else
+      let keys := keysN args caches x in
+      match keys with
+      | [] => (NEmpty caches, [])
+      | _ => (NTable (map (fun k => (k, if runsN caches x k then f (row_args args k) else cachesN caches k)) keys),
+              map (fun k => (k, row_args args k)) (filter (runsN caches x) keys))
+      end.
+End EvalN.
+
+(* the record the correspondence's function returns: output i (from 1) = digits of the arguments + 10000 i *)
+Definition fouts (n : nat) (l : list pval) : list pval := map (fun i => VInt (fcode l + 10000 * Z.of_nat i)) (seq 1 n).
